@@ -221,7 +221,7 @@ RULES = [
     (r'^c13_[qt]_header', dict(arena=512)),
     (r'^c13_q_cutoff', dict(min_covers=2)),
     (r'^c10_q_grammar', dict(min_covers=2)),
-    (r'^c02_t_rk_', dict(timeout=1800, weight=9)),
+    (r'^c02_[qt]_rk_.*x100', dict(timeout=900, weight=9)),
     (r'^c14_[qt]_push_column', dict(arena=64, mem_gb=14.0, timeout=1200, weight=9)),
     (r'^c14_[qt]_xlsb?_(binop|funcvar|unary)', dict(arena=64, mem_gb=20.0, timeout=900, weight=8)),
     (r'^c14_[qt]_xls', dict(arena=64)),
